@@ -403,12 +403,51 @@ _stmt_doc = Contract(
              'result == cleandoc(safe_literal_eval(tree_node.parent.get_next_sibling().children[0].value)))'],
 )
 
-CONTRACTS = CALC + CALC_THOROUGH + KINDS + RENDER + [_docstring, _clean_doc, _stmt_doc]
+_sig_index = Contract(
+    id='C11.Signature.index', prop='C11',
+    clause='index, params and to_string() of one Signature all speak about the SAME parameter list: the one with '
+           '*args/**kwargs of wrappers resolved to the wrapped callable\'s parameters',
+    file='jedi/api/classes.py', qualname='Signature.index',
+    params={'self': Obj('SigAPI')}, families=['SigAPI', 'SigVal', 'CallDetails', 'ParamName'], ret=Opt(INT),
+    ensures=['result == self._call_details.calculate_index(self._signature.get_param_names(resolve_stars=True))'],
+)
+_sig_params = Contract(
+    id='C11.BaseSignature.params', prop='C11',
+    clause='params lists one ParamName per parameter of the resolved list, in order',
+    file='jedi/api/classes.py', qualname='BaseSignature.params',
+    params={'self': Obj('SigAPI')}, families=['SigAPI', 'SigVal', 'ParamName'], ret=Seq(ANY),
+    ensures=['len(result) == len(self._signature.get_param_names(resolve_stars=True))',
+             'all(result[i] == ParamName(self._inference_state, self._signature.get_param_names(resolve_stars=True)[i]) '
+             'for i in range(0, len(result)))'],
+)
+_sig_to_string = Contract(
+    id='C11.BaseSignature.to_string', prop='C11', clause='the text of a signature is the text of its value',
+    file='jedi/api/classes.py', qualname='BaseSignature.to_string',
+    params={'self': Obj('SigAPI')}, families=['SigAPI', 'SigVal'], ret=STR,
+    ensures=['result == self._signature.to_string()'],
+)
+
+CONTRACTS = CALC + CALC_THOROUGH + KINDS + RENDER + [_docstring, _clean_doc, _stmt_doc, _sig_index, _sig_params,
+                                                       _sig_to_string]
 
 
 def register(reg):
     from pyvc.values import MCls
     reg.names['ImportName'] = MCls('ImportName')
+    reg.add_family(Family('SigAPI', attrs={'_signature': Obj('SigVal'), '_call_details': Obj('CallDetails'),
+                                           '_inference_state': ANY}))
+    reg.add_family(Family('SigVal', methods={
+        'get_param_names': FnSpec('AbstractSignature.get_param_names', params=[('resolve_stars', BOOL)],
+                                  defaults={'resolve_stars': False}, ret=Seq(Obj('ParamName')), pure=True, assumed=True,
+                                  note='resolve_stars=True follows *args/**kwargs of wrappers (inference)'),
+        'to_string': FnSpec('AbstractSignature.to_string', ret=STR, pure=True, assumed=False,
+                            note='C11.to_string.param_strings')}))
+    reg.names['ParamName'] = FnSpec('api.ParamName', params=[('inference_state', ANY), ('name', Obj('ParamName'))], ret=ANY,
+                                    pure=True, assumed=True)
+    if 'calculate_index' not in reg.families['CallDetails'].methods:
+        reg.families['CallDetails'].methods['calculate_index'] = FnSpec(
+            'CallDetails.calculate_index', params=[('param_names', Seq(Obj('ParamName')))], ret=Opt(INT), pure=True,
+            assumed=False, note='C11.calculate_index[n,m]')
     reg.names['cleandoc'] = FnSpec('inspect.cleandoc', params=[('doc', STR)], ret=STR, pure=True, assumed=True)
     reg.names['safe_literal_eval'] = FnSpec('safe_literal_eval', params=[('value', STR)], ret=STR, pure=True,
                                             assumed=True, note='ast.literal_eval of the literal; "" for f-strings')
